@@ -16,6 +16,9 @@ CLAIMS["C05"] = ("proof", "contract-based deductive verification: WP VCs over go
 CLAIMS["C15"] = ("proof", "contract-based deductive verification with a ghost call trace: WP VCs over go/ssa, discharged by z3/cvc5",
          "Unbounded proof, for every number of upstreams and every fault assignment, that each of the five FailoverGroup request methods contacts an upstream only if every earlier one failed with an unavailability error (plus 'unsupported' for config/flags/metadata), that the outcome is the outcome of the last upstream contacted (answer on success; on failure the same error wrapped with that upstream's URI and the group's strict flag), with IsUnavailableError, isUnsupportedError, decodeErrorType and problemFromError's severity table under contract.",
          "errors.As/errors.Is are modelled as uninterpreted predicate/extractor pairs (A5): which Go error values concrete network faults produce is not decided; upstream request methods are used through empty contracts", "DESIGN.md §7 C15")
+CLAIMS["C09"] = ("proof", "contract-based deductive verification: WP VCs over go/ssa of the real functions, ghost variables for delegated sub-conditions, discharged by z3/cvc5",
+         "Unbounded proof that Match.IsMatch is exactly the conjunction of the documented conditions (command, state, kind, fully anchored path and name patterns, label, annotation, for and keep_firing_for with their comparison operator), that label/annotation conditions are an existential over the merged group+rule label view with both patterns anchored, that config.isMatch is 'no ignore block holds and (no match block or some match block holds)' with no block skipped, that the state default depends on the command (defaultMatchStates, defaultRuleMatch), plus stateMatches, durationMatch.isMatch, parseMatchOperation, strictRegex; and that merging rule labels into group labels (parser.MergeMaps/setValue) keeps every group label key visible and leaves the group's own labels unchanged.",
+         "regexp matching, duration parsing and context lookup are uninterpreted (trusted contracts on parseDuration, parseDurationMatch, commandFromContext; A5 on regexp); nil-safety of YAML item pointers assumed", "DESIGN.md §7 C09")
 NA = {
  "C19": "two-run relational property of two recursive traversals over a third-party AST (yaml.Node) quantified over wrappers of arbitrary depth; no contract within reach of the generator can state it (DESIGN.md §8)",
 }
